@@ -35,7 +35,8 @@ CYCLES = ("pipe-open-close pipe-roundtrip pipe-drop unix-socket spawn-wait spawn
           "read-timeout deadline-no-fire deadline-fire go-error-supervisor spawn-finish file-open-close file-drop "
           "parser-peg sleep lock spawn-err-pipe spawn-all-pipes thread-call-cancelled thread-call-deadline "
           "proc-wait-cancelled read-cancelled write-cancelled sleep-cancelled connect-refused connect-accept-tcp "
-          "spawn-drop-running deadline-body-raises tchan-streams-drop lock-drop").split()
+          "spawn-drop-running deadline-body-raises tchan-streams-drop lock-drop tchan-cancelled-take-close "
+          "tchan-abandoned-select-close").split()
 FIELDS = ["fds", "children", "threads", "root-count", "block-count", "tq-count", "listener-count", "fds-before-gc"]
 # cycles that deliberately drop an open handle and leave closing it to the collector
 GC_CLOSES = {"pipe-drop", "file-drop", "spawn-drop", "spawn-drop-running", "tchan-streams-drop"}
@@ -139,6 +140,25 @@ def special_program(kind):
 (print "main returns " total)
 """
         return src, sorted(["reader done", "writer done", "main returns 3000000"])
+    if kind == "close-both":
+        # a reader and a writer parked on one stream whose peer neither writes nor reads; a third task closes the stream:
+        # both must end so that the loop can return
+        src = """(def path (string "/tmp/c20-close-" (os/getpid) ".sock"))
+(def srv (net/listen :unix path))
+(def pc (ev/chan 1))
+(ev/go (fn [] (ev/give pc (net/accept srv))))
+(def cli (net/connect :unix path))
+(def peer (ev/take pc))
+(os/rm path)
+(ev/go (fn [] (try (do (ev/read cli 64) (print "reader returned")) ([e] (print "reader raised")))))
+(ev/go (fn [] (try (do (ev/write cli (string/repeat "w" 8000000)) (print "writer returned")) ([e] (print "writer raised")))))
+(ev/sleep 0.05)
+(ev/close cli)
+(ev/sleep 0.05)
+(ev/close peer) (ev/close srv)
+(print "main returns")
+"""
+        return src, None
     if kind == "tchan-writers-cancel":
         # three fibers blocked in ev/give on a full thread channel; the first one is cancelled; every value that was
         # given must still be taken and the two remaining givers must finish, so that the loop can return
@@ -188,6 +208,7 @@ def term_programs(quick):
                     progs.append(([a, b, c], link, False))
     progs.append((["duplex-gc"], "special", False))
     progs.append((["tchan-writers-cancel"], "special", False))
+    progs.append((["close-both"], "special", False))
     for n in (2, 8, 9, 16, 24, 40, 64):
         for kind in ("thread", "proc"):
             progs.append(([str(n)], "burst", kind))
@@ -256,6 +277,10 @@ def run_term(chk):
                           replay_cmd="janet <file>   # must print every expected line and exit")
         elif r.rc != 0:
             chk.violation("abnormal-exit:" + opsig, "program %s: %s out=%r" % (shape, r.describe(), got), src)
+        elif expect is None:
+            # outcome of the two closed operations may be a return or an error; what matters is that both end
+            if not (len(got) == 3 and "main returns" in got and any(g.startswith("reader ") for g in got) and any(g.startswith("writer ") for g in got)):
+                chk.violation("exit-before-completion:" + opsig, "program %s printed %r, expected one line each from reader, writer and main" % (shape, got), src)
         elif got != expect:
             missing = [e for e in expect if e not in got]
             chk.violation(("exit-before-completion:" if missing else "unexpected-output:") + opsig,
